@@ -6,6 +6,7 @@ import (
 	"io"
 	iofs "io/fs"
 	"os"
+	"path/filepath"
 	"sort"
 	"strings"
 	"time"
@@ -571,6 +572,19 @@ func (p c16) Exec(t *core.Trace) *core.Result {
 		cleanup = append(cleanup, func() { os.RemoveAll(dir) })
 		if err := writeHostTree(dir, tree); err != nil {
 			panic(err)
+		}
+		// regular files that carry a set-uid, set-gid or sticky bit are regular files all the same
+		k := 0
+		for _, e := range tree {
+			if !e.Dir && e.Link == "" && uint64(t.I("tag")>>3)%2 == 0 {
+				bit := []os.FileMode{os.ModeSetuid, os.ModeSetgid, os.ModeSticky}[k%3]
+				if os.Chmod(filepath.Join(dir, filepath.FromSlash(e.Path)), 0o755|bit) == nil {
+					res.Probe("source-file-with-special-mode-bit")
+				}
+				if k++; k == 3 {
+					break
+				}
+			}
 		}
 		src = os.DirFS(dir)
 	case "memfs":
